@@ -58,6 +58,20 @@ def relay_key(text):
     rest = text.split(b"://", 1)[1]
     return text if b"/" in rest else text + b"/"
 
+def relays_by_key(out):
+    """an output line with every relay replaced by its `RelayUrl` equality key (the nostr type compares URLs without regard to
+    the trailing slash of an empty path): WHICH spelling of two equal URLs a decoder keeps is not a difference between values —
+    `BTreeSet::insert` keeps the first, `collect()` the last, and both results are equal sets"""
+    def rep(m):
+        if m.group(2) == "-":
+            return m.group(0)
+        try:
+            ks = sorted({relay_key(bytes.fromhex(x)) for x in m.group(2).split(",")})
+        except Exception:
+            return m.group(0)
+        return m.group(1) + ",".join(H(k) for k in ks)
+    return re.sub(r"((?:^| |~)relays=)([0-9a-f,]+|-)", rep, out)
+
 def canon_ext(v, last_wins=False):
     """canonical printout the decoders must produce for the value v (sets sorted, duplicates dropped;
     element-wise insert keeps the first of two URLs that differ only by the trailing slash, collect() the last)"""
@@ -494,7 +508,7 @@ def case_text(c, note=""):
 
 def same(c):
     a, b = c["impl"], c["model"]
-    if a == b:
+    if a == b or relays_by_key(a) == relays_by_key(b):
         return True
     # tls_codec's `debug_assert!(len_len_log <= MAX_LEN_LEN_LOG)` fires in debug builds before the
     # `InvalidVectorLength` error the release build returns: both are a refusal of the 8-byte prefix
@@ -584,11 +598,11 @@ def oracle(cases):
             stats["roundtrips_checked"] += 1
             o = dict(x.split("=", 1) for x in c["impl_oracle"].split())
             want = canon_ext(dict(c["value"], version=2), last_wins=True) if "value" in c else None
-            if o.get("rt") != "1" or (want and o.get("dec", "").replace("~", " ") != want):
+            if o.get("rt") != "1" or (want and relays_by_key(o.get("dec", "").replace("~", " ")) != relays_by_key(want)):
                 fail(c, "ext-roundtrip", f"decode(encode x) != x: {c['impl_oracle'][:200]}")
         if cls == "ext:valid" and acc and "value" in c:
             stats["roundtrips_checked"] += 1
-            if a != canon_ext(c["value"]):
+            if relays_by_key(a) != relays_by_key(canon_ext(c["value"])):
                 fail(c, "ext-decode-value", f"decoded value differs from the encoded one: {a[:200]}")
         if cls in ("w:create",) and acc and a != "err create":
             stats["roundtrips_checked"] += 1
